@@ -42,6 +42,11 @@ Proof.
   intros [a b c d] [a' b' c' d']. unfold af_eqb. simpl. rewrite !andb_true_iff, !Z.eqb_eq.
   split; [intros [[[-> ->] ->] ->]; reflexivity|intros H; injection H; auto].
 Qed.
+Lemma fl_eqb_ok : eqb_ok fl_eqb.
+Proof.
+  intros [a b c] [a' b' c']. unfold fl_eqb. simpl. rewrite !andb_true_iff, !Z.eqb_eq, Bool.eqb_true_iff.
+  split; [intros [[-> ->] ->]; reflexivity|intros H; injection H; auto].
+Qed.
 Lemma zz_eqb_ok : eqb_ok zz_eqb.
 Proof.
   intros [a b] [c d]. unfold zz_eqb. simpl. rewrite andb_true_iff, !Z.eqb_eq.
@@ -132,7 +137,7 @@ End Check.
 
 Theorem model_check_spec_check_gen ca cb (c : case) : model_check c = true -> spec_check_gen ca cb c = true.
 Proof.
-  destruct c as [h|h|h|h|h|h|h|h|h|h]; cbn [model_check spec_check_gen].
+  destruct c as [h|h|h|h|h|h|h|h|h|h|h]; cbn [model_check spec_check_gen].
   - apply (model_check_spec_check_k kit_min _ kit_min_lawful Z_eqb_ok Z_eqb_ok).
   - apply (model_check_spec_check_k kit_max _ kit_max_lawful Z_eqb_ok Z_eqb_ok).
   - apply (model_check_spec_check_k kit_sum _ kit_sum_lawful Z_eqb_ok Z_eqb_ok).
@@ -145,4 +150,5 @@ Proof.
              (pair_eqb_ok _ _ (pair_eqb_ok _ _ Z_eqb_ok Z_eqb_ok) zz_eqb_ok)).
   - apply (model_check_spec_check_k kit_concat _ kit_concat_lawful cc_eqb_ok (list_eqb_ok _ str_eqb_ok)).
   - apply (model_check_spec_check_k kit_affine _ kit_affine_lawful af_eqb_ok zz_eqb_ok).
+  - apply (model_check_spec_check_k kit_flip _ kit_flip_lawful fl_eqb_ok zz_eqb_ok).
 Qed.
